@@ -601,8 +601,13 @@ class Fxp():
             if isinstance(val_max, (np.integer, np.floating)):
                 # narrow NumPy types: scale in Python arithmetic (an int8 / float16 ... product would wrap or overflow)
                 val_max, val_min = val_max.item(), val_min.item()
-            val_max = int(val_max*(1 << n_frac))
-            val_min = int(val_min*(1 << n_frac))
+            if n_frac >= 0:
+                val_max = int(val_max*(1 << n_frac))
+                val_min = int(val_min*(1 << n_frac))
+            else:
+                # a negative fractional size (given by the user): the codes are the values divided by 2**-n_frac
+                val_max = int(utils.Fraction(val_max) / (1 << -n_frac))
+                val_min = int(utils.Fraction(val_min) / (1 << -n_frac))
             n_int = 0
             while n_int < n_word_max - sign + n_frac:    # (at most n_word_max - sign bits of integer part)
                 msb_max = (val_max >> n_int) + (1 if val_max < 0 else 0)
